@@ -237,7 +237,7 @@ def render(doc) -> str:
     return text
 
 
-BAD_TOKENS = ["foo", "1.2.3", "12a", "--1", "1e", "abc", "1..2", "+-3", "x1", "1,5e", "?", "e5"]
+BAD_TOKENS = ["foo", "1.2.3", "12a", "--1", "1e", "abc", "1..2", "+-3", "x1", "1,5e", "?", "e5", "#", "#1", "1#", "#note"]
 
 
 @st.composite
@@ -257,7 +257,15 @@ def malformed_line(draw):
         cls = "short-line"
     else:
         i = draw(st.integers(0, 6))
-        toks[i] = draw(st.sampled_from(BAD_TOKENS))
+        bad = draw(st.sampled_from(BAD_TOKENS))
+        if "#" in bad and i == 0:
+            i = draw(st.integers(1, 6))  # a line that *starts* with '#' is a comment, not a malformed row
+        if draw(st.integers(0, 3)) == 0 and i >= 1:
+            toks.insert(i, bad)  # an extra non-numeric field among the seven ("2 3 1 0 # 0 1 1")
+        else:
+            toks[i] = bad
         cls = f"bad-token-field{i}"
+        if "#" in bad:
+            cls += "-hash"
     lead = draw(st.sampled_from(["", "", " ", "\t"]))
     return lead + " ".join(toks), cls
